@@ -515,6 +515,14 @@ def run(ctx) -> dict:
     counts: dict[str, int] = {}
     results = [r10_1(ctx, counts, spec), r10_2(ctx, counts, spec), r10_3(ctx, counts, spec),
                r10_4(ctx, counts, spec), r10_5(ctx, counts, spec)]
+    # R10.6: casting a double/decimal to text must not lose the exponent (shared rule)
+    from .zerostrip import zero_strip_rule
+    json_mods = ('elementpath.serialization', 'elementpath.xpath31._xpath31_functions',
+                 'elementpath.xpath30._xpath30_functions')
+    r6 = zero_strip_rule(ctx, 'R10.6', lambda f: f.module.name not in json_mods, counts)
+    if len(r6.instances) < 3:
+        raise AnalysisError(f'R10.6: only {len(r6.instances)} trailing-zero strips located')
+    results.append(r6)
     return {
         'results': results, 'counts': counts,
         'explanation':
